@@ -177,7 +177,21 @@ fn check_all(run: &Run, cfg: &Cfg, x: &Dec, t: &mut Tally) {
 
 fn replay(cfg: &Cfg, case: &Value) -> Vec<Violation> {
     let x = jd(&case["x"]);
-    check(cfg, Kind::from_name(case["render"].as_str().unwrap()), &bd(&x), &x).into_iter().collect()
+    let kind = Kind::from_name(case["render"].as_str().unwrap());
+    if let Some(a) = case.get("after") {
+        // a recorded history: the earlier rendering (of another decimal) first
+        let prev = bd(&jd(a));
+        let _ = guard(|| kind.render(&prev));
+    }
+    check(cfg, kind, &bd(&x), &x)
+        .map(|mut v| {
+            if let (Some(a), Some(o)) = (case.get("after"), v.case.as_object_mut()) {
+                o.insert("after".into(), a.clone());
+            }
+            v
+        })
+        .into_iter()
+        .collect()
 }
 
 fn pattern_digits(len: usize, seed: u64) -> Vec<String> {
@@ -295,6 +309,33 @@ fn main() {
         let l = ndigits(&st[i]) as i128;
         for x in structured_decimals(&st[i..=i], &[0, 1, -1, -16, l - 1, l, l + 5, l + 6, l + 7, 19, 20], &[0, 1, 12]) {
             check_all(&run, &cfg, &x, &mut t);
+        }
+        t
+    });
+    // S6: call histories of length two over pairs of coefficients chosen against weak cache keys (two single-bit
+    // changes in adjacent words at every relative rotation; a change in a middle word only; neighbours across a power
+    // of ten): render A, then B through the same notation on the same thread; B is judged as usual
+    let wk = weak_key_pairs();
+    run.bound("S6_weak_key_pairs", wk.len());
+    run.par("S6 rendering histories over weak-key pairs", (wk.len() + 15) / 16, |blk| {
+        let mut t = Tally::default();
+        for (a, b) in wk[blk * 16..((blk + 1) * 16).min(wk.len())].iter() {
+            for (sa, sb) in [(0i128, 0i128), (7, 7), (3, -2)] {
+                let (xa, xbd) = (Dec { n: a.clone(), s: sa }, Dec { n: b.clone(), s: sb });
+                let (pa, pb) = (bd(&xa), bd(&xbd));
+                t.states += 1;
+                for k in KINDS {
+                    t.transitions += 2;
+                    t.nontrivial += 1;
+                    let _ = guard(|| k.render(&pa));
+                    if let Some(mut v) = check(&cfg, k, &pb, &xbd) {
+                        if let Some(o) = v.case.as_object_mut() {
+                            o.insert("after".into(), json!(xa.show()));
+                        }
+                        run.report(v.attr("history", true));
+                    }
+                }
+            }
         }
         t
     });
